@@ -1,4 +1,7 @@
-//! bp — deterministic harness for the leader side (`src/consensus/block_producer.rs`); oracle-only, no Lean model.
+//! bp — deterministic harness for the leader side (`src/consensus/block_producer.rs`): property oracles, and (for C13)
+//! correspondence with the Lean model `AgModel.BlockProducer` (`lean/Driver/BlockProducer.lean`, `drv_bp`): per block the
+//! op lines `begin` / `slice`* / `end` carry what the ENVIRONMENT saw (trace `T`, `model_ops`), the impl lines what the
+//! producer disseminated and stored (see `notes/BlockProducer.md`). Racy plans are not replayed on the model.
 //!
 //! A real `BlockProducer` (hook `VerifBlockProducer`) is built from a real `BlockstoreImpl`, a real `PoolImpl`, a
 //! recording `Disseminator` and a scripted transaction `Network`, and is asked for one block at a time through
